@@ -106,6 +106,7 @@ func (s *SolverSet) Close() {
 type feat struct {
 	fp     bool
 	nonlin bool
+	div    bool // (C01) contains quotient/remainder variables introduced by elimDiv: integer reasoning (cvc5-int) usually wins
 	uf     bool
 }
 
@@ -137,6 +138,10 @@ func features(asserts []*Term) feat {
 			}
 		case OpUF:
 			f.uf = true
+		case OpVar:
+			if strings.HasPrefix(t.Name, "$dq") {
+				f.div = true
+			}
 		}
 		if t.Sort.K == KFP {
 			f.fp = true
@@ -389,7 +394,7 @@ func (s *SolverSet) race(script string, vars []*Term, wantModel bool, ft feat) (
 	stages := [][]cand{cands}
 	if len(cands) > 2 {
 		first := []cand{cands[0], cands[1]}
-		if ft.nonlin && !ft.fp {
+		if (ft.nonlin || ft.div) && !ft.fp {
 			first = []cand{cands[0], cands[2]} // z3-new + cvc5-int
 		}
 		var rest []cand
